@@ -242,14 +242,22 @@ func cmdCheck(repo, verif, prop, tier string, timeout int, verbose bool) int {
 	kfLines, kfNew := runKnownFindings(repo, verif, prop, known, tier)
 
 	boundedSummary, boundedFailing := runBounded(repo, verif, prop, tier)
-	var mutants []mutantResult
+	var mutants, mustPass []mutantResult
 	if tier == "thorough" && os.Getenv("GOVC_MUTANT") == "" {
 		mutants = runMutants(repo, verif, prop, timeout)
 		for _, m := range mutants {
 			if m.Detected {
 				fmt.Printf("govc: must-fail %s: reported by %s\n", m.Seed, strings.Join(m.By, ", "))
 			} else {
-				fmt.Printf("govc: must-fail %s: %s\n", m.Seed, m.Note)
+				fmt.Printf("govc: must-fail %s: NOT DETECTED %s\n", m.Seed, m.Note)
+			}
+		}
+		mustPass = runMustPass(repo, verif, prop, timeout)
+		for _, m := range mustPass {
+			if m.Detected {
+				fmt.Printf("govc: must-pass %s (behaviour-preserving refactoring): REPORTED by %s\n", m.Seed, strings.Join(m.By, ", "))
+			} else {
+				fmt.Printf("govc: must-pass %s (behaviour-preserving refactoring): not reported, as it should be\n", m.Seed)
 			}
 		}
 	}
@@ -317,7 +325,7 @@ func cmdCheck(repo, verif, prop, tier string, timeout int, verbose bool) int {
 	for _, er := range pr.engineErrs {
 		fmt.Println("govc: engine: " + er)
 	}
-	writeEvidence(e, verif, pr, tier, seed, claimed, discharged, undecided, unbound, missing, bySolver, solverTime, wall, nviol, kfLines, boundedSummary, mutants)
+	writeEvidence(e, verif, pr, tier, seed, claimed, discharged, undecided, unbound, missing, bySolver, solverTime, wall, nviol, kfLines, boundedSummary, mutants, mustPass)
 	fmt.Printf("property %s: %d functions under contract, %d obligations claimed, %d discharged, %d undecided (not claimed), %d violations, %.1fs\n",
 		prop, len(pr.funcs), claimed, discharged, len(undecided), nviol, wall)
 	if nviol > 0 {
@@ -353,7 +361,7 @@ func writeReplay(verif, prop string, ob *Obligation, pr *propRun) string {
 	return path
 }
 
-func writeEvidence(e *Engine, verif string, pr *propRun, tier string, seed, claimed, discharged int, undecided, unbound, missing []string, bySolver map[string]int, solverTime, wall float64, nviol int, kf []string, bounded []string, mutants []mutantResult) {
+func writeEvidence(e *Engine, verif string, pr *propRun, tier string, seed, claimed, discharged int, undecided, unbound, missing []string, bySolver map[string]int, solverTime, wall float64, nviol int, kf []string, bounded []string, mutants []mutantResult, mustPass []mutantResult) {
 	var samples []map[string]string
 	for _, ob := range pr.obs {
 		if len(samples) >= 6 {
@@ -424,6 +432,7 @@ func writeEvidence(e *Engine, verif string, pr *propRun, tier string, seed, clai
 			"known_findings_reported":  kf,
 			"bounded_stand_ins":        bounded,
 			"must_fail_mutants":        mutants,
+			"must_pass_refactorings":   mustPass,
 			"second_opinions":          secondOpinions(pr),
 			"contract_files":           e.cs.Files,
 			"explanation":              "obligations generated by weakest-precondition style symbolic execution of go/ssa of the real code against //@ contracts; each is an SMT query discharged only on unsat",
